@@ -30,9 +30,16 @@ def gen_program(rng):
     consts = {'kone': rng.randint(0, 100)}
     n = rng.randint(3, 10)
     region = 0
+    norg = 0
     have_local = False
     for i in range(n):
         r = rng.random()
+        if r < 0.07:
+            # an origin / zone directive; the non-local label behind it (same line or next line) opens the next region
+            norg += 1
+            stmts.append(rng.choice([('org', ['.org', f'${norg * 0x40:x}']), ('zone', ['.memzone', rng.choice(['ZN', 'GLOBAL'])]),
+                                     ('org', ['.org', f'{norg * 8}', '"ZN"'])]))
+            r = 0.0
         if r < 0.18:
             region += 1
             have_local = False
@@ -159,10 +166,18 @@ def render(rng, consts, stmts, canonical):
         if cur != '':
             lines.append(cur)
             cur = ''
+    cur_kind = None
     for kind, x in stmts:
         if kind == 'label':
+            text = x + ':'
+            if cur and cur_kind in ('org', 'zone') and not canonical and rng.random() < 0.6:
+                # a label behind an origin / zone directive on the same line
+                cur = cur + ws(rng, required=True) + text
+                kinds.add('label-behind-directive')
+                cur_kind = 'label'
+                continue
             flush()
-            text = x + (ws(rng) if not canonical and False else '') + ':'
+            cur_kind = 'label'
             if canonical or rng.random() < 0.5:
                 lines.append(text)                       # label on its own line
             else:
@@ -172,12 +187,14 @@ def render(rng, consts, stmts, canonical):
             text = render_stmt(rng, x, canonical, recase=not canonical)
             if cur.endswith(':'):
                 cur = cur + ws(rng, required=False).replace('', '') + (' ' if rng.random() < 0.7 else '\t') + text
-            elif cur and kind == 'ins' and not canonical and rng.random() < 0.4 and not cur.lstrip().startswith('.byte'):
+            elif cur and kind == 'ins' and not canonical and rng.random() < 0.4 and not cur.lstrip().startswith('.byte') \
+                    and cur_kind != 'org':
                 cur = cur + ws(rng, required=True) + text
                 kinds.add('compound')
             else:
                 flush()
                 cur = text
+            cur_kind = kind
             if kind == 'data':
                 flush()
         if not canonical:
@@ -210,6 +227,7 @@ def gen_case(rng, tier):
     instrs_y['b.ne'] = {'bytecode': {'value': 0x71, 'size': 8}, 'operands': {'count': 1, 'operand_sets': {'list': ['imm8']}}}
     instrs_y['b.eq'] = {'bytecode': {'value': 0x72, 'size': 8}}
     isa = {'description': 'c18', 'general': {'address_size': 16, 'endian': de, 'registers': list(C10.REGS)},
+           'predefined': {'memory_zones': [{'name': 'ZN', 'start': 0x300, 'end': 0x3ff}]},
            'operand_sets': osets, 'instructions': instrs_y}
     consts, stmts = gen_program(rng)
     canon, _ = render(rng, consts, stmts, True)
